@@ -227,6 +227,17 @@ func (s *stream) Open() {
 	s.streamFinishedWithCloseCh = false
 	s.streamFinishedWithEndEventCh = false
 
+	// a previous close may have produced both finish signals while only one was consumed;
+	// a left-over one must not stop the client after this reopen
+	select {
+	case <-s.finishStreamWithCloseCh:
+	default:
+	}
+	select {
+	case <-s.finishStreamWithEndEventCh:
+	default:
+	}
+
 	s.eventHandler.BeforeStreamStart()
 
 	vbIDs := s.vBucketDiscovery.Get()
